@@ -23,7 +23,9 @@ import Pyunicorn.Model.VisibilityScale
   kernel `_nsi_betweenness` (with the masks / index arrays the three methods build), then the same
   three from the pair-dependency definition `betwSpec`, then (round 5b) the same three as C03's
   `NetBetw.interregionalCount` over enumerated shortest paths — the right-hand side of the theorems
-  `betweenness_kernel_eq_count` / `visibility_betweenness_kernel_eq_count`
+  `betweenness_kernel_eq_count` / `visibility_betweenness_kernel_eq_count` (round 5c: the three
+  groups are equal by theorem on symmetric matrices, `betweenness_kernel_eq_spec`,
+  `betwSpec_eq_interregionalCount`)
 * `hvgf32 N x` — the horizontal kernel on the series converted to float32 (`rndF32` on every sample)
 * `rnd32 q1,q2,…` — round 4: `rndF32` of every rational (compared with the hardware's binary32
   conversion, subtraction and division)
